@@ -77,7 +77,7 @@ func C12(tier string) {
 	}
 	named = append(named, ciexyy.D50, ciexyy.D65, ciexyy.Color{X: 0.3127, Y: 0.3290, YY: 1}, ciexyy.Color{X: 0.3457, Y: 0.3585, YY: 1})
 	whites = append(whites, named...)
-	r.Rule(fmt.Sprintf("white points: %dx%d chromaticity lattice over [0.2,0.5]^2 plus 11 CIE illuminants and the package's D50/D65 (%d whites); all ordered pairs; near-neighbour pairs (offsets +/-1e-6..1e-3 in x and y); all triples over the named whites and an 8x8 sub-lattice; XYZ whites with Y != 1; Apply on the lattice {-0.5,0,0.5,1,2}^3 and a geometric lattice; distinct = ordered pairs of different whites", n, n, len(whites)))
+	r.Rule(fmt.Sprintf("white points: %dx%d chromaticity lattice over [0.2,0.5]^2 plus 11 CIE illuminants and the package's D50/D65 (%d whites); all ordered pairs; near-neighbour pairs (offsets +/-1e-6..1e-3 in x and y); all triples over the named whites and an 8x8 sub-lattice; every sequence of up to 3 requests over {A->A, A->B, B->A, B->B} x both constructors; XYZ whites with Y != 1; Apply on the lattice {-0.5,0,0.5,1,2}^3 and a geometric lattice; distinct = ordered pairs of different whites", n, n, len(whites)))
 	r.Assume("reference: linear Bradford adaptation M^-1 diag(dst cone / src cone) M with the published Bradford matrix, float64, Gauss-Jordan inverse")
 
 	bad := func(key, desc string, a, b ciexyy.Color) {
@@ -170,6 +170,45 @@ func C12(tier string) {
 					checkPair(b, a)
 					r.Eval(2)
 					r.DistinctN(2)
+				}
+			}
+		}
+	}
+
+	// request sequences: the same request repeated, identity requests, both
+	// constructors, in every order up to length 3 - each answer compared with
+	// the reference whatever was asked before (no state may carry over)
+	{
+		type req struct {
+			a, b ciexyy.Color
+			xyz  bool
+		}
+		wA, wB := named[0], named[5]
+		var reqs []req
+		for _, p := range [][2]ciexyy.Color{{wA, wA}, {wA, wB}, {wB, wA}, {wB, wB}} {
+			reqs = append(reqs, req{p[0], p[1], false}, req{p[0], p[1], true})
+		}
+		ask := func(q req) refs.M3 {
+			if q.xyz {
+				return m3of(matrix.Matrix3(ciexyz.AdaptBetweenXYZWhitePoints(ciexyz.ColorFromXYY(q.a), ciexyz.ColorFromXYY(q.b))))
+			}
+			return m3of(matrix.Matrix3(ciexyz.AdaptBetweenXYYWhitePoints(q.a, q.b)))
+		}
+		n := len(reqs)
+		for l := 1; l <= 3; l++ {
+			for idx := 0; idx < ipow(n, l); idx++ {
+				q := idx
+				var trace []string
+				for k := 0; k < l; k++ {
+					rq := reqs[q%n]
+					q /= n
+					got := ask(rq)
+					ref := refs.BradfordAdapt(xyzV(ciexyz.ColorFromXYY(rq.a)), xyzV(ciexyz.ColorFromXYY(rq.b)))
+					trace = append(trace, fmt.Sprintf("(%g,%g)->(%g,%g) via %s", rq.a.X, rq.a.Y, rq.b.X, rq.b.Y, map[bool]string{true: "XYZ", false: "xyY"}[rq.xyz]))
+					if d := refs.MaxAbsDiff(got, ref); !(d <= 1e-9*math.Max(1, ref.NormInf())) {
+						r.Violate("sequence", fmt.Sprintf("request %d of the sequence %v returned a matrix differing from the reference by %.3g", k+1, trace, d), map[string]interface{}{"sequence": trace}, nil)
+					}
+					r.Eval(1)
 				}
 			}
 		}
